@@ -1183,10 +1183,14 @@ impl CraneliftCompiler {
                 | ebpf::JSLE_IMM32
                 | ebpf::JSLE_REG32
                 | ebpf::JSET_IMM32
-                | ebpf::JSET_REG32
-                | ebpf::EXIT
-                | ebpf::TAIL_CALL => {
+                | ebpf::JSET_REG32 => {
                     self.prepare_jump_blocks(bcx, insn_ptr, &insn);
+                }
+                // These end a block but have no jump target: their offset field is unused.
+                ebpf::EXIT | ebpf::TAIL_CALL => {
+                    self.insn_blocks
+                        .entry(insn_ptr as u32 + 1)
+                        .or_insert_with(|| bcx.create_block());
                 }
                 _ => {}
             }
